@@ -656,6 +656,57 @@ def listing_uses_final(ctx):
                         f.file, f.line)
 
 
+def disassembler_operands_unaltered(ctx):
+    """QModule.disassemble must show what is encoded: the operands it prints
+    are the values struct.unpack returned (or a formatting of them), never a
+    recomputed value."""
+    repo = ctx.repo
+    rule = 'C09.disassembler-shows-decoded-operands-unaltered'
+    ctx.rule(rule, 'in QModule.disassemble every name that receives a '
+             'struct.unpack result keeps it until it is listed as an '
+             'operand: no reassignment (rounding, masking, arithmetic) '
+             'between decoding and printing; index bookkeeping (idx) is '
+             'exempt')
+    f = repo.func('qvm.module', 'QModule.disassemble')
+    n = 0
+    decoded = {}
+    for st in ast.walk(f.node):
+        if isinstance(st, ast.Assign) and isinstance(st.value, ast.Call) \
+                and dotted(st.value.func) == 'struct.unpack':
+            for t in st.targets:
+                for e in (t.elts if isinstance(t, (ast.Tuple, ast.List))
+                          else [t]):
+                    if isinstance(e, ast.Name):
+                        decoded.setdefault(e.id, []).append(st)
+    for name in sorted(decoded):
+        n += 1
+        others = []
+        for st in ast.walk(f.node):
+            tg = []
+            if isinstance(st, ast.Assign):
+                tg = [t for t in st.targets]
+            elif isinstance(st, (ast.AugAssign, ast.AnnAssign)):
+                tg = [st.target]
+            for t in tg:
+                for e in (t.elts if isinstance(t, (ast.Tuple, ast.List))
+                          else [t]):
+                    if isinstance(e, ast.Name) and e.id == name and \
+                            st not in decoded[name]:
+                        others.append(st)
+        fmts = sorted({str(const(d.value.args[0])) for d in decoded[name]
+                       if d.value.args})
+        construct = f'{f.file}:QModule.disassemble:unpack[{"|".join(fmts)}]'
+        ctx.instance(rule, construct, sample={'decoded_at': [
+            d.lineno for d in decoded[name]], 'reassigned': len(others)})
+        for st in others:
+            ctx.finding(rule, construct,
+                        f'the decoded operand `{name}` is recomputed '
+                        f'({unparse(st)[:60]}) before it is printed: the '
+                        f'disassembly no longer shows the encoded value',
+                        f.file, st.lineno)
+    ctx.floor('decoded operand names in disassemble', n, 8)
+
+
 def run(ctx):
     ctx.clauses = [
         'three-codec operand agreement for all opcodes; dispatch coverage',
@@ -673,6 +724,7 @@ def run(ctx):
     frame_declarations(ctx)
     emittable_encodable(ctx, instrs)
     listing_uses_final(ctx)
+    disassembler_operands_unaltered(ctx)
     return ('Sibling-agreement analysis of the three instruction codecs '
             '(QvmCode.assembled if/elif chain evaluated per opcode, '
             'qvm.instrs Operand classes, QModule.disassemble chain), of the '
